@@ -432,6 +432,9 @@ def num_json(s):
 
 
 def cons_schema(c):
+    if isinstance(c.get("ty"), dict):
+        inner = cons_schema(dict(c, ty=c["ty"]["wrap"]))
+        return {("anyOf" if c["ty"].get("any", True) else "oneOf"): [inner, {"type": "null"}]}
     o = {}
     for k, v in c.items():
         if v is None:
